@@ -472,6 +472,9 @@ class Forcing(BaseForce):
         nextstep = steps[i + 1]
 
         self.fields["u"], self.fields["v"] = self._read_velocity(prestep)
+        # Other forcing, read before the look-ahead below may switch to the next file
+        for name in self.extra_forcing:
+            self.fields[name] = self._read_field(name, prestep)
         self.fields["u_new"], self.fields["v_new"] = self._read_velocity(nextstep)
         self.fields["dU"] = (self.fields["u_new"] - self.fields["u"]) / stepdiff0
         self.fields["dV"] = (self.fields["v_new"] - self.fields["v"]) / stepdiff0
@@ -483,9 +486,6 @@ class Forcing(BaseForce):
         # Interpolate to time step = -1
         self.fields["u"] = self.fields["u"] - (prestep + 1) * self.fields["dU"]
         self.fields["v"] = self.fields["v"] - (prestep + 1) * self.fields["dV"]
-        # Other forcing
-        for name in self.extra_forcing:
-            self.fields[name] = self._read_field(name, prestep)
 
         self.steps = steps
         # self.files = files
